@@ -178,6 +178,27 @@ theorem locallyDelaunay_sound (ts : List Tri) (h : locallyDelaunay ts = true) : 
     rw [h1] at this; cases this
   · exact h1 p hp
 
+/-- what `isCDTOfCollection` certifies: the output splits, by the exact centroid test, into one group per component
+polygon; every output triangle is in exactly one group; group `i` is a constrained Delaunay triangulation of
+component `i` (every clause of `IsCDT`, and the local Delaunay condition on the edges shared inside the group) -/
+structure IsCDTCollection (polys : List (List (List Pt))) (tris : List Tri) : Prop where
+  unique_owner : ∀ t ∈ tris, (∃ rings ∈ polys, ownedBy rings t = true) ∧
+    (polys.filter (fun rings => ownedBy rings t)).length = 1
+  component : ∀ rings ∈ polys, IsCDT rings (trisIn rings tris) ∧ IsLocallyDelaunay ((trisIn rings tris).map Tri.ccw)
+  groups_are_output : ∀ rings, ∀ t, t ∈ trisIn rings tris ↔ (t ∈ tris ∧ ownedBy rings t = true)
+
+theorem isCDTOfCollection_sound (polys : List (List (List Pt))) (tris : List Tri)
+    (h : isCDTOfCollection polys tris = true) : IsCDTCollection polys tris := by
+  simp only [isCDTOfCollection, Bool.and_eq_true, List.all_eq_true, decide_eq_true_eq] at h
+  obtain ⟨h1, h2⟩ := h
+  refine ⟨fun t ht => ⟨?_, h1 t ht⟩, fun rings hr => ⟨isCDTOf_sound _ _ (h2 rings hr).1, locallyDelaunay_sound _ (h2 rings hr).2⟩,
+    fun rings t => by simp [trisIn, List.mem_filter]⟩
+  have hl := h1 t ht
+  have hpos : 0 < (polys.filter (fun rings => ownedBy rings t)).length := by omega
+  obtain ⟨r, hr⟩ := List.exists_mem_of_length_pos hpos
+  obtain ⟨hr1, hr2⟩ := List.mem_filter.mp hr
+  exact ⟨r, hr1, hr2⟩
+
 end GeosModel.Tri
 
 namespace GeosModel.Tri
